@@ -488,17 +488,28 @@ func eq2(a, b [][]int) bool {
 	return true
 }
 
-func flat(ref [][]int) []int {
-	var g []int
-	for _, r := range ref {
-		g = append(g, r...)
-	}
-	return g
-}
-
 // readGrid reads every cell with Get, row by row.
 func readGrid(c *core.Ctx, a arrays.Array2D[int], w, h int, when string) []int {
-	g := make([]int, 0, w*h)
+	return readGridInto(c, a, w, h, when, nil)
+}
+
+// readGridInto is readGrid reusing buf's storage.
+func readGridInto(c *core.Ctx, a arrays.Array2D[int], w, h int, when string, buf []int) []int {
+	g := buf[:0]
+	if cap(g) < w*h {
+		g = make([]int, 0, w*h)
+	}
+	// fast path: one recover for the whole grid; per-cell recovery only if some Get panics
+	if k := core.Try(func() {
+		for y := 0; y < h; y++ {
+			for x := 0; x < w; x++ {
+				g = append(g, a.Get(x, y))
+			}
+		}
+	}); k == "" {
+		return g
+	}
+	g = g[:0]
 	for y := 0; y < h; y++ {
 		for x := 0; x < w; x++ {
 			v := sentinel
@@ -528,13 +539,17 @@ func optPanic(kind string) string {
 	return "(Some " + kind + ")"
 }
 
-func firstDiff(got, want []int, w int) string {
-	if len(got) != len(want) {
-		return fmt.Sprintf("grid has %d cells, want %d", len(got), len(want))
+// diffRef compares a grid read row by row with the reference grid, without allocating.
+func diffRef(got []int, ref [][]int, w int) string {
+	if len(got) != len(ref)*w {
+		return fmt.Sprintf("grid has %d cells, want %d", len(got), len(ref)*w)
 	}
-	for i := range got {
-		if got[i] != want[i] {
-			return fmt.Sprintf("cell (%d,%d) is %d, want %d", i%w, i/w, got[i], want[i])
+	for y, row := range ref {
+		base := y * w
+		for x, v := range row {
+			if got[base+x] != v {
+				return fmt.Sprintf("cell (%d,%d) is %d, want %d", x, y, got[base+x], v)
+			}
 		}
 	}
 	return ""
@@ -691,7 +706,7 @@ func execE(c *core.Ctx, cs Case, emit bool) {
 		fail("Width/Height after construction", fmt.Sprintf("%dx%d", a.Width(), a.Height()))
 	}
 	og := readGrid(c, a, w, h, "after construction")
-	if d := firstDiff(og, flat(ref), w); d != "" {
+	if d := diffRef(og, ref, w); d != "" {
 		fail("constructor: cells differ from the cell model", d)
 	}
 	if cs.Ctor == "jagged" {
@@ -701,7 +716,7 @@ func execE(c *core.Ctx, cs Case, emit bool) {
 				r[x] += 31
 			}
 		}
-		if d := firstDiff(readGrid(c, a, w, h, "after mutating the jagged input"), flat(ref), w); d != "" {
+		if d := diffRef(readGrid(c, a, w, h, "after mutating the jagged input"), ref, w); d != "" {
 			fail("array aliases the jagged input", d)
 		}
 	}
@@ -709,18 +724,24 @@ func execE(c *core.Ctx, cs Case, emit bool) {
 
 	inb := func(x, y int) bool { return x >= 0 && x < w && y >= 0 && y < h }
 	steps := make([]string, 0, len(cs.Ops))
+	var spare []int
 	for n, op := range cs.Ops {
 		c.Count("op_" + op.K)
 		at := fmt.Sprintf("op %d %s%v", n, op.K, op.A)
 		var coqOp, coqObs string
 		// grid after the call, its delta, and the comparison with the cell model
 		after := func() string {
-			g := readGrid(c, a, w, h, "after "+at)
-			if d := firstDiff(g, flat(ref), w); d != "" {
+			g := readGridInto(c, a, w, h, "after "+at, spare)
+			if d := diffRef(g, ref, w); d != "" {
 				fail("array differs from the cell model after "+op.K, at+": "+d)
 			}
-			d := delta(og, g)
-			og = g
+			d := "[]"
+			if emit {
+				d = delta(og, g)
+			} else if !core.Eq(og, g) {
+				d = "[changed]"
+			}
+			og, spare = g, og
 			return d
 		}
 		switch op.K {
@@ -868,7 +889,7 @@ func execE(c *core.Ctx, cs Case, emit bool) {
 			cg := readGrid(c, cl, cl.Width(), cl.Height(), "clone")
 			if cl.Width() != w || cl.Height() != h {
 				fail("Clone has a different shape", fmt.Sprintf("%dx%d", cl.Width(), cl.Height()))
-			} else if d := firstDiff(cg, flat(ref), w); d != "" {
+			} else if d := diffRef(cg, ref, w); d != "" {
 				fail("Clone differs from the original", d)
 			} else if k := core.Try(func() {
 				// independence, both directions
@@ -877,7 +898,7 @@ func execE(c *core.Ctx, cs Case, emit bool) {
 						cl.Set(x, y, ref[y][x]+77)
 					}
 				}
-				if d := firstDiff(readGrid(c, a, w, h, "after writing the clone"), flat(ref), w); d != "" {
+				if d := diffRef(readGrid(c, a, w, h, "after writing the clone"), ref, w); d != "" {
 					fail("writing the clone altered the original", d)
 				}
 				if w > 0 && h > 0 {
